@@ -49,6 +49,21 @@ def trace_extract(ctx, n):
                                                  [(o["kind"], o["no"], o["total"]) for o in e.get("out", [])]] for e in s0][:14]})
 
 
+def oversized_transfers(ctx):
+    """transfers announcing totals no re-request can list (256 .. 65535), left idle and continued, and the largest transfer the header
+    can announce carried through to its end (65535 one-byte packages): no panic, the extractor keeps working, the complete message
+    has every byte"""
+    hx = os.path.join(ctx.scratch, "extract_hostile.ndjson")
+    ctx.vh_ok(["extract-hostile", hx], timeout=300)
+    hev = vlib.read_nd(hx, quoted=False)
+    for e in hev:
+        if e["panic"] or not e["alive"]:
+            ctx.violation("extractor-panic total=%d" % e["total"] if e["panic"] else "extractor-dead-after-oversized-transfer total=%d" % e["total"],
+                          "a transfer announcing %d packages, left idle and continued (variant %d): %s" % (e["total"], e["variant"], e["panic"] or "no frame extracted afterwards"),
+                          {"kind": "extract-hostile", "event": e})
+    ctx.note_impl("oversized-transfers-left-idle-through-the-extractor", len(hev))
+
+
 def replay_any(ctx, r):
     if "steps" in (r.get("case") or {}):
         f = os.path.join(ctx.scratch, "one.ndjson"); open(f, "w").write(json.dumps(r["case"]) + "\n")
